@@ -275,3 +275,31 @@ define %real @f(%real %x) {
   %y = fadd %real %x, 0xK3FFF8000000000000000
   ret %real %y
 }
+;;; ATOM const/blockaddress-in-globals-function-bodies-and-metadata
+@t1 = global i8* blockaddress(@f, %bb1)
+@t2 = global [2 x i8*] [i8* blockaddress(@f, %bb2), i8* blockaddress(@g, %x)]
+@t3 = global i8* blockaddress(@g, %y)
+
+define i8* @f(i1 %c) {
+entry:
+  br i1 %c, label %bb1, label %bb2
+bb1:
+  ret i8* blockaddress(@g, %x), !where !{i8* blockaddress(@f, %bb1)}
+bb2:
+  ret i8* blockaddress(@f, %bb1)
+}
+
+define void @g(i1 %c) {
+entry:
+  br i1 %c, label %x, label %y
+x:
+  ret void
+y:
+  ret void
+}
+
+!named = !{!0, !1, !2, !3}
+!0 = !{i8* blockaddress(@f, %bb1)}
+!1 = !{i8* blockaddress(@g, %y), !0}
+!2 = !{i8* blockaddress(@f, %bb2), i8* blockaddress(@g, %x)}
+!3 = !{!{i8* blockaddress(@g, %x)}}
